@@ -106,7 +106,7 @@ def _continued(case, ctx, d, fk, k, payload, it0, n_it, c, labels, keys):
             minipcn.reset()
         return P, lg, raised
 
-    g0 = os.path.join(d, "cont.h5")
+    g0 = os.path.join(d, "cont" + cc.ext(case))
     shutil.copyfile(fk, g0)
     P0, lg0, _ = cont(g0, None)
     where0 = f"run interrupted at likelihood call {k} (checkpoint of iteration {it0}) and continued through resume_from_file"
@@ -119,7 +119,7 @@ def _continued(case, ctx, d, fk, k, payload, it0, n_it, c, labels, keys):
     labels.append("continued")
     js = range(J) if (ctx.tier == "thorough" or J <= 8) else sorted(set(int(round(v)) for v in np.linspace(0, J - 1, 8)))
     for j in js:
-        gj = os.path.join(d, "contj.h5")
+        gj = os.path.join(d, "contj" + cc.ext(case))
         shutil.copyfile(fk, gj)
         Pj, lgj, raised = cont(gj, ("likelihood", j))
         if not raised:
@@ -169,7 +169,7 @@ def run_case(case, ctx):
                     raise
             return lg.writes[-1]["blob"] if lg.writes else None
 
-        ref = os.path.join(d, "ref.h5")
+        ref = os.path.join(d, "ref" + cc.ext(case))
         old = prepare(ref)
         P0 = cc.CkptProblem(case)
         with cc.WriteLog() as log0:
@@ -204,7 +204,7 @@ def run_case(case, ctx):
         n_cont = 4 if ctx.tier == "thorough" else 2
         cont_ks = set(int(round(v)) for v in np.linspace(0, T - 1, n_cont + 2)[1:]) if (kind == "likelihood" and not auto and T > 2) else set()
         for k in range(T):
-            fk = os.path.join(d, f"f{k}.h5")
+            fk = os.path.join(d, f"f{k}" + cc.ext(case))
             oldk = prepare(fk)
             Pk = cc.CkptProblem(case, fault=(kind, k))
             with cc.WriteLog() as logk:
@@ -243,6 +243,11 @@ def run_case(case, ctx):
                     st_obj = pickle.loads(blob)
                     if logk.writes and st_obj.get("iteration") != (due[-1] if due else None):
                         ctx.fail("checkpoint-iteration", f"{where}: stored checkpoint is of iteration {st_obj.get('iteration')}, last due {due[-1] if due else None}", case, k=k)
+            if blob is not None and Pk.aspire.sampler is not None:
+                # the other documented route: the file name handed to resume_from= is read by the sampler's own loader
+                ok_, st2 = ctx.guard("path-loader", Pk.aspire.sampler.load_checkpoint_from_file, str(fk), case=case)
+                if ok_ and (not isinstance(st2, dict) or st2.get("iteration") != pickle.loads(blob).get("iteration")):
+                    ctx.fail("path-loader", f"{where}: the checkpoint read back by file name is not the stored payload", case, k=k)
             if has_cfg and has_flow:
                 A = Aspire.resume_from_file(fk, log_likelihood=Pk.log_likelihood, log_prior=Pk.log_prior)
                 if (last is not None) != hasattr(A, "_resume_from_default"):
